@@ -654,8 +654,8 @@ def fromJsonCell (j : PyVal) : Res Cell := do
   let ts ← asTypes ty
   let m ← asMeta md
   let col ← asOptInt col
-  -- `self.value = " ".join([line.text for line in self.lines])`
-  if lines.any (fun l => l.text.isNone) then .error .TypeError else
+  -- `self.value = " ".join([line.text for line in self.lines if line.text is not None])`:
+  -- the texts are strings or None here, nothing can raise
   let c : Cell := { h := { id := id, types := addTypes (baseTypes "table_cell") ts, md := m, coords := coords },
                     row := row, col := col, cellSpan := cellSpan, rowSpan := rowSpan, header := header,
                     cornerpoints := cornerpoints, orientation := orientation,
